@@ -454,6 +454,13 @@ def main(tier, seed, t0):
             last = rerun(c)
             total.count('confirmation_runs')
             is_over = over(last)
+        if is_over and phase == 'call' and fname != '__program__':
+            # whose time is it? compile the pattern alone, now, under the same machine load: if that alone eats a good part of
+            # the bound (or has to be killed), the slowness belongs to compilation (its own signature), not to the matching call
+            cs = supervised([(pattern, sname, '', '__compile__')])[0]
+            total.count('confirmation_runs')
+            if 'killed' in cs or (cs.get('compile_s') or 0) > 0.25 * bnd:
+                phase = 'compile'
         if is_over:
             confirmed += 1
             if phase == 'compile':
